@@ -60,7 +60,6 @@ func NewTimer(ioc *IO) (*Timer, error) {
 // If the delay is negative or 0, the callback is executed as soon as possible.
 func (t *Timer) ScheduleOnce(delay time.Duration, cb func()) (err error) {
 	if t.state == stateReady {
-		t.cancelled = false
 		if delay <= 0 {
 			cb()
 		} else {
@@ -71,6 +70,9 @@ func (t *Timer) ScheduleOnce(delay time.Duration, cb func()) (err error) {
 			})
 
 			if err == nil {
+				// A new schedule begins. An immediate callback (delay <= 0) arms nothing and must leave the flag alone:
+				// a repeating timer cancelled from inside its own callback relies on it to stop.
+				t.cancelled = false
 				t.ioc.pendingTimers[t] = struct{}{}
 				t.state = stateScheduled
 			}
